@@ -181,8 +181,17 @@ package scheduler
 //@   at[created:C04] call scheduler.ClusterContext.addNode#1: assert arg1 == nodeInfo && (nodeInfo.Action == 1 || nodeInfo.Action == 6) && arg2 == (nodeInfo.Action == 1)
 //@   holds cc != nil && cc.rmEventHandler != nil && request != nil && (forall i int :: 0 <= i && i < len(request.Nodes) ==> request.Nodes[i] != nil)
 
+// every submitted application gets exactly one answer: accepted only when the partition took it, rejected (under its
+// own id) otherwise; every application named for removal whose partition exists is removed
 //@ func (cc *ClusterContext) handleRMUpdateApplicationEvent(event *rmevent.RMUpdateApplicationEvent)
-//@   props C13
+//@   props C13 C04
+//@   loop 1: exhaustive
+//@   loop 1: each len(acceptedApps) + len(rejectedApps) == iter(len(acceptedApps) + len(rejectedApps)) + 1
+//@   at[accepted:C04] append acceptedApps#1: assert err == nil && elem != nil && elem.ApplicationID == schedApp.ApplicationID && ncalls(scheduler.PartitionContext.AddApplication) == iter(ncalls(scheduler.PartitionContext.AddApplication)) + 1
+//@   at[rejected:C04] append rejectedApps#*: assert elem != nil && elem.ApplicationID == app.ApplicationID
+//@   loop 2: exhaustive
+//@   loop 2: each partition != nil ==> ncalls(scheduler.PartitionContext.removeApplication) == iter(ncalls(scheduler.PartitionContext.removeApplication)) + 1
+//@   at[removed:C04] call scheduler.PartitionContext.removeApplication#1: assert arg0 == partition && arg1 == app.ApplicationID
 //@   sweep
 //@   holds cc != nil && cc.rmEventHandler != nil && event != nil && event.Request != nil
 //@   at[wfSI] fieldaddr AddApplicationRequest.PartitionName#1: assume base != nil
@@ -215,6 +224,14 @@ package scheduler
 //@   at[app] call scheduler.PartitionContext.getApplication#1 after: assume ret != nil ==> appfound(pc, arg1)
 //@   at[node] call scheduler.PartitionContext.GetNode#1 after: assume ret != nil ==> nodefound(pc, arg1)
 //@   at[cancelled] call scheduler.PartitionContext.decReservationCount#1: assert arg1 == result.CancelledReservations
+//@   at[resv] call scheduler.PartitionContext.reserve#1: assert arg0 == pc && arg1 == app && arg2 == targetNode && arg3 == result.Request && result.ResultType == objects.Reserved
+//@   at[unresv] call scheduler.PartitionContext.unReserve#1: assert arg0 == pc && arg1 == app && arg2 == reservedNode && reservedNode != nil && arg3 == result.Request && (result.ResultType == objects.Unreserved || result.ResultType == objects.AllocatedReserved)
+//@   at[resnode] call scheduler.PartitionContext.GetNode#2 after: assume (ret != nil) <==> resnodefound(result)
+//@   at[resnodeid] call scheduler.PartitionContext.GetNode#2: assert arg1 == (result.ReservedNodeID == "" ? result.NodeID : result.ReservedNodeID)
+//@   ensures[givenup] out != nil && old(result.ResultType) == objects.AllocatedReserved && resnodefound(result) ==> ncalls(scheduler.PartitionContext.unReserve) == 1
+//@   ensures[counted] out != nil ==> ncalls(scheduler.PartitionContext.updateAllocationCount) == 1 && (result.Request.placeholder ==> ncalls(scheduler.PartitionContext.incPhAllocationCount) == 1) && (!result.Request.placeholder ==> ncalls(scheduler.PartitionContext.incPhAllocationCount) == 0)
+//@   ensures[notannounced] (old(result.ResultType) == objects.Reserved || old(result.ResultType) == objects.Unreserved) ==> out == nil
+//@ spec abstract resnodefound(r *objects.AllocationResult) bool
 //@ spec abstract appfound(p *PartitionContext, id string) bool
 //@ spec abstract nodefound(p *PartitionContext, id string) bool
 
@@ -267,8 +284,9 @@ package scheduler
 //@   ensures[notcounted] err != nil ==> ncalls(scheduler.PartitionContext.updatePartitionResource) == 0
 
 //@ func (cc *ClusterContext) updateNode(nodeInfo *si.NodeInfo)
-//@   props C02
+//@   props C02 C13
 //@   sweep
 //@   mode nopanic=off
 //@   at[inputsize] call resources.NewResourceFromProto#1 after: assume mag(ret)
+//@   at[present:C13,C02] call objects.Node.SetCapacity#1: assert arg0 == node && nodeInfo.SchedulableResource != nil && nodeInfo.Action == 2
 //@   at[capacitychange] call scheduler.PartitionContext.updatePartitionResource#1: assert arg0 == partition && ncalls(objects.Node.SetCapacity) == 1 && (arg1 != nil ==> (forall t Key :: rv(arg1, t) == rv(node.totalResource, t) - old(rv(node.totalResource, t)))) && (arg1 == nil ==> (forall t Key :: rv(node.totalResource, t) == old(rv(node.totalResource, t))))
